@@ -675,8 +675,8 @@ func (e *Exec) invExpr(x *Expr, head *ssa.BasicBlock, phiVals map[*ssa.Phi]Term,
 		if _, isParam := env.vars[name]; isParam {
 			continue
 		}
-		if _, isPhi := v.(*ssa.Phi); isPhi {
-			continue
+		if phi, isPhi := v.(*ssa.Phi); isPhi && (phi.Block() == head || !phi.Block().Dominates(head)) {
+			continue // this loop's own phis are bound below; a phi that does not dominate the head has no value here
 		}
 		if x, ok := e.lookup(v); ok {
 			if x.fn != nil || len(x.tup) > 0 {
